@@ -30,6 +30,7 @@ CONSTANTS
   MaxReopen,     \* bound on re-openings
   MaxRetain,     \* bound on retention updates
   MaxGc,         \* bound on garbage-collection runs
+  MaxFail,       \* bound on injected storage faults (failed save of the checkpoints document)
   MaxLen,        \* history length bound (generation)
   Dev_MemOldestFirst, Dev_L0OldestFirst, Dev_ScanDropsMemTomb,
   Dev_GetLevelsFirst, Dev_EndSeqLastKey, Dev_RotateDropsLatest, Dev_TableIdReuse, Dev_GcIgnoresSharing, Dev_RetainDropsNewer
@@ -53,7 +54,7 @@ VARIABLES
   comp,      \* running compaction: [on, picked (set of table ids), out (Seq of tables)]
   nextTid,   \* TableWriter id counter
   ckpts,     \* in-memory checkpoint list: Seq([id, lv, latest, walId, after, lastSeq])
-  pendRm,    \* checkpointsPendingRemoval (set of wal ids)
+  pendRm,    \* checkpointsPendingRemoval (set of checkpoint records)
   saves,     \* async checkpoint saves: set of [id, walId, content, stage]
   files,     \* durable storage: [sst: tid -> ents, wal: id -> Seq, doc: Seq(cp)]
   returned,  \* checkpoint ids whose handle has been returned
@@ -61,12 +62,12 @@ VARIABLES
   oracle, snapAt,   \* ghosts
   dropped,   \* checkpoint ids the caller has dropped (retention named newer ones only, or a restart from another one)
   zombies,   \* table ids of in-memory tables of a replaced database instance (same process), not yet collected
-  nops, nrd, nck, nre, nrt, ngc, hist
+  nops, nrd, nck, nre, nrt, ngc, nfl, hist
 
 vars == <<seq, mem, lv, latest, wal, flushQ, flush, compQ, comp, nextTid, ckpts, pendRm,
-          saves, files, returned, rd, oracle, snapAt, dropped, zombies, nops, nrd, nck, nre, nrt, ngc, hist>>
+          saves, files, returned, rd, oracle, snapAt, dropped, zombies, nops, nrd, nck, nre, nrt, ngc, nfl, hist>>
 view == <<seq, mem, lv, latest, wal, flushQ, flush, compQ, comp, nextTid, ckpts, pendRm,
-          saves, files, returned, rd, oracle, snapAt, dropped, zombies, nops, nrd, nck, nre, nrt, ngc>>
+          saves, files, returned, rd, oracle, snapAt, dropped, zombies, nops, nrd, nck, nre, nrt, ngc, nfl>>
 
 EmptyMt == [k \in {} |-> [s |-> 0, v |-> 0]]
 NoFlush == [on |-> FALSE, n |-> 0, tabs |-> <<>>]
@@ -81,7 +82,7 @@ Init ==
   /\ flushQ = 0 /\ flush = NoFlush /\ compQ = 0 /\ comp = NoComp /\ nextTid = 0
   /\ ckpts = <<>> /\ pendRm = {} /\ saves = {} /\ files = NoFiles /\ returned = {}
   /\ rd = NoRead /\ oracle = [k \in Keys |-> Tomb] /\ snapAt = [i \in {} |-> oracle]
-  /\ dropped = {} /\ zombies = {} /\ nops = 0 /\ nrd = 0 /\ nck = 0 /\ nre = 0 /\ nrt = 0 /\ ngc = 0 /\ hist = <<>>
+  /\ dropped = {} /\ zombies = {} /\ nops = 0 /\ nrd = 0 /\ nck = 0 /\ nre = 0 /\ nrt = 0 /\ ngc = 0 /\ nfl = 0 /\ hist = <<>>
 
 Log(r) == hist' = Append(hist, r)
 
@@ -170,7 +171,7 @@ Write(k, v) ==
   /\ LET st == ApplyWrite([mem |-> mem, wal |-> wal, flushQ |-> flushQ, seq |-> seq], k, v)
      IN /\ mem' = st.mem /\ wal' = st.wal /\ flushQ' = st.flushQ /\ seq' = st.seq
         /\ Log([a |-> IF v = Tomb THEN "Delete" ELSE "Put", k |-> k, v |-> v, rot |-> st.rot])
-  /\ UNCHANGED <<lv, latest, flush, compQ, comp, nextTid, ckpts, pendRm, saves, files, returned, rd, snapAt, nrd, nck, nre, nrt, zombies, ngc, dropped>>
+  /\ UNCHANGED <<lv, latest, flush, compQ, comp, nextTid, ckpts, pendRm, saves, files, returned, rd, snapAt, nrd, nck, nre, nrt, zombies, ngc, dropped, nfl>>
 
 \* Get: two captures (level list, memtable list) with background steps possible in between
 GetBegin(k) ==
@@ -179,7 +180,7 @@ GetBegin(k) ==
            THEN [on |-> TRUE, kind |-> "get", arg |-> {k}, capMem |-> <<>>, capLv |-> lv]
            ELSE [on |-> TRUE, kind |-> "get", arg |-> {k}, capMem |-> mem, capLv |-> <<>>]
   /\ Log([a |-> "GetBegin", k |-> k])
-  /\ UNCHANGED <<seq, mem, lv, latest, wal, flushQ, flush, compQ, comp, nextTid, ckpts, pendRm, saves, files, returned, oracle, snapAt, nops, nck, nre, nrt, zombies, ngc, dropped>>
+  /\ UNCHANGED <<seq, mem, lv, latest, wal, flushQ, flush, compQ, comp, nextTid, ckpts, pendRm, saves, files, returned, oracle, snapAt, nops, nck, nre, nrt, zombies, ngc, dropped, nfl>>
 
 ReadValue == LET k == CHOOSE k \in rd.arg : TRUE
                  m == IF Dev_GetLevelsFirst THEN mem ELSE rd.capMem
@@ -189,7 +190,7 @@ GetEnd ==
   /\ rd.on /\ rd.kind = "get"
   /\ rd' = NoRead
   /\ Log([a |-> "GetEnd", k |-> CHOOSE k \in rd.arg : TRUE, demanded |-> oracle[CHOOSE k \in rd.arg : TRUE], predicted |-> ReadValue])
-  /\ UNCHANGED <<seq, mem, lv, latest, wal, flushQ, flush, compQ, comp, nextTid, ckpts, pendRm, saves, files, returned, oracle, snapAt, nops, nrd, nck, nre, nrt, zombies, ngc, dropped>>
+  /\ UNCHANGED <<seq, mem, lv, latest, wal, flushQ, flush, compQ, comp, nextTid, ckpts, pendRm, saves, files, returned, oracle, snapAt, nops, nrd, nck, nre, nrt, zombies, ngc, dropped, nfl>>
 
 ScanBegin(P) ==
   /\ ~rd.on /\ nrd < MaxReads /\ nrd' = nrd + 1
@@ -197,7 +198,7 @@ ScanBegin(P) ==
            THEN [on |-> TRUE, kind |-> "scan", arg |-> P, capMem |-> <<>>, capLv |-> lv]
            ELSE [on |-> TRUE, kind |-> "scan", arg |-> P, capMem |-> mem, capLv |-> <<>>]
   /\ Log([a |-> "ScanBegin", p |-> P])
-  /\ UNCHANGED <<seq, mem, lv, latest, wal, flushQ, flush, compQ, comp, nextTid, ckpts, pendRm, saves, files, returned, oracle, snapAt, nops, nck, nre, nrt, zombies, ngc, dropped>>
+  /\ UNCHANGED <<seq, mem, lv, latest, wal, flushQ, flush, compQ, comp, nextTid, ckpts, pendRm, saves, files, returned, oracle, snapAt, nops, nck, nre, nrt, zombies, ngc, dropped, nfl>>
 
 ScanValue == LET m == IF Dev_GetLevelsFirst THEN mem ELSE rd.capMem
                  l == IF Dev_GetLevelsFirst THEN rd.capLv ELSE lv
@@ -206,7 +207,7 @@ ScanEnd ==
   /\ rd.on /\ rd.kind = "scan"
   /\ rd' = NoRead
   /\ Log([a |-> "ScanEnd", p |-> rd.arg, demanded |-> [k \in rd.arg |-> oracle[k]], predicted |-> ScanValue])
-  /\ UNCHANGED <<seq, mem, lv, latest, wal, flushQ, flush, compQ, comp, nextTid, ckpts, pendRm, saves, files, returned, oracle, snapAt, nops, nrd, nck, nre, nrt, zombies, ngc, dropped>>
+  /\ UNCHANGED <<seq, mem, lv, latest, wal, flushQ, flush, compQ, comp, nextTid, ckpts, pendRm, saves, files, returned, oracle, snapAt, nops, nrd, nck, nre, nrt, zombies, ngc, dropped, nfl>>
 
 -----------------------------------------------------------------------------
 \* background flush task (serialised by the global queue): start = snapshot the
@@ -221,7 +222,7 @@ FlushStart ==
                                              tabs[CHOOSE i \in 1..n : tabs[i].id = t].ents])]
   /\ flushQ' = flushQ - 1
   /\ Log([a |-> "FlushStart"])
-  /\ UNCHANGED <<seq, mem, lv, latest, wal, compQ, comp, ckpts, pendRm, saves, returned, rd, oracle, snapAt, nops, nrd, nck, nre, nrt, zombies, ngc, dropped>>
+  /\ UNCHANGED <<seq, mem, lv, latest, wal, compQ, comp, ckpts, pendRm, saves, returned, rd, oracle, snapAt, nops, nrd, nck, nre, nrt, zombies, ngc, dropped, nfl>>
 
 FlushSwap ==
   /\ flush.on
@@ -231,7 +232,7 @@ FlushSwap ==
   /\ wal' = WalTruncate(wal, latest')
   /\ flush' = NoFlush /\ compQ' = compQ + 1
   /\ Log([a |-> "FlushSwap"])
-  /\ UNCHANGED <<seq, flushQ, comp, nextTid, ckpts, pendRm, saves, files, returned, rd, oracle, snapAt, dropped, zombies, nops, nrd, nck, nre, nrt, ngc>>
+  /\ UNCHANGED <<seq, flushQ, comp, nextTid, ckpts, pendRm, saves, files, returned, rd, oracle, snapAt, dropped, zombies, nops, nrd, nck, nre, nrt, ngc, nfl>>
 
 \* background compaction (abstract policy: when L0 reaches the trigger, merge
 \* all of L0 and L1 into one L1 table; tombstones dropped because L1 is the base)
@@ -248,9 +249,9 @@ CompactPick ==
              /\ nextTid' = nextTid + Len(out)
              /\ files' = IF out = <<>> THEN files
                          ELSE [files EXCEPT !.sst = Override(@, [t \in {nextTid} |-> merged])]
-     ELSE UNCHANGED <<comp, nextTid, files, zombies, ngc, dropped>>
+     ELSE UNCHANGED <<comp, nextTid, files, zombies, ngc, dropped, nfl>>
   /\ Log([a |-> "CompactPick"])
-  /\ UNCHANGED <<seq, mem, lv, latest, wal, flushQ, flush, ckpts, pendRm, saves, returned, rd, oracle, snapAt, nops, nrd, nck, nre, nrt, zombies, ngc, dropped>>
+  /\ UNCHANGED <<seq, mem, lv, latest, wal, flushQ, flush, ckpts, pendRm, saves, returned, rd, oracle, snapAt, nops, nrd, nck, nre, nrt, zombies, ngc, dropped, nfl>>
 
 CompactSwap ==
   /\ comp.on
@@ -260,7 +261,7 @@ CompactSwap ==
   /\ comp' = NoComp
   /\ compQ' = compQ + 1   \* the task loops until Compact returns no change set
   /\ Log([a |-> "CompactSwap"])
-  /\ UNCHANGED <<seq, mem, wal, flushQ, flush, nextTid, ckpts, pendRm, saves, files, returned, rd, oracle, snapAt, dropped, zombies, nops, nrd, nck, nre, nrt, ngc>>
+  /\ UNCHANGED <<seq, mem, wal, flushQ, flush, nextTid, ckpts, pendRm, saves, files, returned, rd, oracle, snapAt, dropped, zombies, nops, nrd, nck, nre, nrt, ngc, nfl>>
 
 -----------------------------------------------------------------------------
 \* checkpoints
@@ -273,25 +274,26 @@ Checkpoint ==
         /\ snapAt' = Override(snapAt, [i \in {id} |-> oracle])
         /\ Log([a |-> "Checkpoint", id |-> id, snap |-> oracle])
   /\ wal' = WalRotate(wal)
-  /\ UNCHANGED <<seq, mem, lv, latest, flushQ, flush, compQ, comp, nextTid, pendRm, files, returned, rd, oracle, nops, nrd, nre, nrt, zombies, ngc, dropped>>
+  /\ UNCHANGED <<seq, mem, lv, latest, flushQ, flush, compQ, comp, nextTid, pendRm, files, returned, rd, oracle, nops, nrd, nre, nrt, zombies, ngc, dropped, nfl>>
 
 SaveWal(sv) ==
   /\ sv \in saves /\ sv.stage = "wal"
   /\ files' = [files EXCEPT !.wal = Override(@, [i \in {sv.walId} |-> sv.content])]
   /\ saves' = (saves \ {sv}) \cup {[sv EXCEPT !.stage = "doc"]}
   /\ Log([a |-> "SaveWal", id |-> sv.id])
-  /\ UNCHANGED <<seq, mem, lv, latest, wal, flushQ, flush, compQ, comp, nextTid, ckpts, pendRm, returned, rd, oracle, snapAt, nops, nrd, nck, nre, nrt, zombies, ngc, dropped>>
+  /\ UNCHANGED <<seq, mem, lv, latest, wal, flushQ, flush, compQ, comp, nextTid, ckpts, pendRm, returned, rd, oracle, snapAt, nops, nrd, nck, nre, nrt, zombies, ngc, dropped, nfl>>
 
 \* CheckpointList.Save: write the document with the *current* list, then delete
 \* the WALs of checkpoints pending removal
-SaveDocFiles == [files EXCEPT !.doc = ckpts, !.wal = Restrict(@, DOMAIN @ \ pendRm)]
+PendWals == {c.walId : c \in pendRm}
+SaveDocFiles == [files EXCEPT !.doc = ckpts, !.wal = Restrict(@, DOMAIN @ \ PendWals)]
 SaveDoc(sv) ==
   /\ sv \in saves /\ sv.stage = "doc"
   /\ files' = SaveDocFiles /\ pendRm' = {}
   /\ saves' = saves \ {sv}
   /\ returned' = returned \cup {sv.id}
   /\ Log([a |-> "SaveDoc", id |-> sv.id])
-  /\ UNCHANGED <<seq, mem, lv, latest, wal, flushQ, flush, compQ, comp, nextTid, ckpts, rd, oracle, snapAt, nops, nrd, nck, nre, nrt, zombies, ngc, dropped>>
+  /\ UNCHANGED <<seq, mem, lv, latest, wal, flushQ, flush, compQ, comp, nextTid, ckpts, rd, oracle, snapAt, nops, nrd, nck, nre, nrt, zombies, ngc, dropped, nfl>>
 
 \* UpdateRetainedCheckpoints(ids): RetainOnly + Save (the caller is the job's
 \* retention notice, which only ever names completed = returned checkpoints)
@@ -304,12 +306,29 @@ Retain(ids) ==
          keepCp(c) == c.id \in ids \/ (~Dev_RetainDropsNewer /\ c.id > top)
          gone == {ckpts[i].walId : i \in {j \in 1..Len(ckpts) : ~keepCp(ckpts[j])}}
      IN /\ ckpts' = SelectSeq(ckpts, keepCp)
-        /\ files' = [files EXCEPT !.doc = SelectSeq(ckpts, keepCp), !.wal = Restrict(@, DOMAIN @ \ (pendRm \cup gone))]
+        /\ files' = [files EXCEPT !.doc = SelectSeq(ckpts, keepCp), !.wal = Restrict(@, DOMAIN @ \ (PendWals \cup gone))]
         /\ pendRm' = {}
         \* what the caller knowingly gave up: completed checkpoints older than the newest it names
         /\ dropped' = dropped \cup {ckpts[i].id : i \in {j \in 1..Len(ckpts) : ckpts[j].id \notin ids /\ ckpts[j].id < top}}
   /\ Log([a |-> "Retain", ids |-> ids])
-  /\ UNCHANGED <<seq, mem, lv, latest, wal, flushQ, flush, compQ, comp, nextTid, saves, returned, rd, oracle, snapAt, zombies, nops, nrd, nck, nre, ngc>>
+  /\ UNCHANGED <<seq, mem, lv, latest, wal, flushQ, flush, compQ, comp, nextTid, saves, returned, rd, oracle, snapAt, zombies, nops, nrd, nck, nre, ngc, nfl>>
+
+\* UpdateRetainedCheckpoints whose save of the checkpoints document FAILS (storage
+\* fault): the in-memory list is already reduced, the dropped checkpoints wait
+\* in checkpointsPendingRemoval; nothing durable changes; a later successful
+\* save (SaveDoc or Retain) removes their WALs
+RetainFail(ids) ==
+  /\ nfl < MaxFail /\ nfl' = nfl + 1
+  /\ ids # {} /\ ids \subseteq returned
+  /\ \E i \in 1..Len(ckpts) : ckpts[i].id \in ids
+  /\ LET top == Max(ids)
+         keepCp(c) == c.id \in ids \/ (~Dev_RetainDropsNewer /\ c.id > top)
+         gone == {ckpts[i] : i \in {j \in 1..Len(ckpts) : ~keepCp(ckpts[j])}}
+     IN /\ ckpts' = SelectSeq(ckpts, keepCp)
+        /\ pendRm' = pendRm \cup gone
+        /\ dropped' = dropped \cup {ckpts[i].id : i \in {j \in 1..Len(ckpts) : ckpts[j].id \notin ids /\ ckpts[j].id < top}}
+  /\ Log([a |-> "RetainFail", ids |-> ids])
+  /\ UNCHANGED <<seq, mem, lv, latest, wal, flushQ, flush, compQ, comp, nextTid, saves, files, returned, rd, oracle, snapAt, zombies, nops, nrd, nck, nre, nrt, ngc>>
 
 -----------------------------------------------------------------------------
 \* opening a database from a checkpoint handle = pure function of durable state
@@ -362,12 +381,12 @@ Reopen(id, crash) ==
   /\ (~crash) => (~flush.on /\ ~comp.on /\ saves = {})   \* the replaced instance is quiescent
   /\ Log([a |-> "Reopen", id |-> id, crash |-> crash, demanded |-> snapAt[id], predicted |-> Restored(id)])
   /\ dropped' = (returned \cup {ckpts[i].id : i \in 1..Len(ckpts)}) \ {id}     \* a restart keeps working from this checkpoint only
-  /\ UNCHANGED <<files, returned, rd, snapAt, nops, nrd, nrt, ngc>>
+  /\ UNCHANGED <<files, returned, rd, snapAt, nops, nrd, nrt, ngc, nfl>>
 
 \* runtime.GC(): every table object nothing refers to is collected and its
 \* cleanup deletes the file - unless (repaired code) another table object of
 \* this process still uses the file
-LiveTabIds == TabIds(lv) \cup UNION {TabIds(ckpts[i].lv) : i \in 1..Len(ckpts)}
+LiveTabIds == TabIds(lv) \cup UNION {TabIds(ckpts[i].lv) : i \in 1..Len(ckpts)} \cup UNION {TabIds(c.lv) : c \in pendRm}
               \cup {flush.tabs[i].id : i \in 1..Len(flush.tabs)} \cup comp.picked
               \cup {comp.out[i].id : i \in 1..Len(comp.out)}
 GcRun ==
@@ -377,7 +396,7 @@ GcRun ==
      IN files' = [files EXCEPT !.sst = Restrict(@, DOMAIN @ \ dead)]
   /\ zombies' = {}
   /\ Log([a |-> "GcRun", demanded |-> oracle])
-  /\ UNCHANGED <<seq, mem, lv, latest, wal, flushQ, flush, compQ, comp, nextTid, ckpts, pendRm, saves, returned, rd, oracle, snapAt, nops, nrd, nck, nre, nrt, dropped>>
+  /\ UNCHANGED <<seq, mem, lv, latest, wal, flushQ, flush, compQ, comp, nextTid, ckpts, pendRm, saves, returned, rd, oracle, snapAt, nops, nrd, nck, nre, nrt, dropped, nfl>>
 
 -----------------------------------------------------------------------------
 Done == FALSE
@@ -391,7 +410,7 @@ Next ==
      \/ FlushStart \/ FlushSwap \/ CompactPick \/ CompactSwap
      \/ Checkpoint
      \/ \E sv \in saves : SaveWal(sv) \/ SaveDoc(sv)
-     \/ \E ids \in SUBSET returned : Retain(ids)
+     \/ \E ids \in SUBSET returned : Retain(ids) \/ RetainFail(ids)
      \/ \E id \in returned, crash \in BOOLEAN : Reopen(id, crash)
      \/ GcRun
 
@@ -425,7 +444,8 @@ LiveTablesExist == \A l \in 1..2 : \A j \in 1..Len(lv[l]) :
 WalReclaimed == [][nrt' = nrt + 1 =>
                     \A i \in 1..Len(ckpts) :      \* checkpoints this database instance knows
                         (\A j \in 1..Len(ckpts') : ckpts'[j].walId # ckpts[i].walId)
-                           => ckpts[i].walId \notin DOMAIN files'.wal]_vars
+                           => ckpts[i].walId \notin DOMAIN files'.wal
+                    /\ \A w \in PendWals : w \notin DOMAIN files'.wal]_vars
 
 \* sequence numbers: the level list never claims more than was written
 SeqOK == latest <= seq
